@@ -2,6 +2,7 @@
 the repetitions asked for, under whatever PYTHONHASHSEED the parent set; prints one digest line per conversion id."""
 import ast
 import hashlib
+import re
 import json
 import sys
 
@@ -39,6 +40,8 @@ def run_one(job, helper):
             out = kinds.to_source(job["to"], art)
     except Exception as e:
         out = "raises:" + exc_kind(e)
+    # (an ast node left in a description by a recorded defect prints with its memory address: not a difference)
+    out = re.sub(r" object at 0x[0-9a-fA-F]+>", " object>", out)
     return hashlib.sha1(out.encode()).hexdigest()[:16] + " " + out.replace("\n", "\\n")[:400]
 
 
